@@ -85,7 +85,7 @@ def bounds(tier):
     q = tier == "quick"
     return {
         "fasta_dna_max_len": 5 if q else 6,
-        "fasta_headers": 48,
+        "fasta_headers": 49,
         "fasta_chars_per_line": CPLS,
         "fastq_complete_score_tuples": "length <= 2 for all 7 offsets x 3 widths; length 3 for offset 64 at width 1; lengths 4-5 over the 4 boundary scores" if q
         else "length <= 3 for offsets 33 and 64 and all widths, length <= 2 for all 7 offsets",
